@@ -26,6 +26,7 @@ CRATES = {
     "gc": {"pkg": "boa_gc", "cwd": "{repo}"},
     "engine": {"pkg": "boa_engine", "cwd": "{repo}"},
     "ast": {"pkg": "boa_ast", "cwd": "{repo}"},
+    "string_in": {"pkg": "boa_string", "cwd": "{repo}"},
     "string": {"pkg": "verif_string_harness", "cwd": "{cache}/string_harness", "external": True},
 }
 
@@ -744,8 +745,11 @@ def finish(prop, tier, seed, t0, mine, results, undecided, violations, known_hit
         "wall_s": round(time.time() - t0, 1),
         "violations": len(viol_lines),
     }
-    os.makedirs(os.path.join(VERIF, "evidence"), exist_ok=True)
-    with open(os.path.join(VERIF, "evidence", prop + ".json"), "w") as f:
+    # evidence/ only ever describes /repo itself; runs against a scratch copy (self-test, seeded changes)
+    # write theirs under .cache/
+    evdir = os.path.join(VERIF, "evidence") if os.path.realpath(REPO) == "/repo" else os.path.join(CACHE, "scratch-evidence")
+    os.makedirs(evdir, exist_ok=True)
+    with open(os.path.join(evdir, prop + ".json"), "w") as f:
         json.dump(ev, f, indent=1)
 
     for k in known_hits:
@@ -758,7 +762,7 @@ def finish(prop, tier, seed, t0, mine, results, undecided, violations, known_hit
     if undecided:
         for u in undecided:
             log("UNDECIDED: " + u)
-        print("%s: undecided (%d reasons), see stderr and evidence/%s.json" % (prop, len(undecided), prop))
+        print("%s: undecided (%d reasons), see stderr and %s/%s.json" % (prop, len(undecided), os.path.relpath(evdir, VERIF), prop))
         return 2
     print("%s: OK tier=%s proved=%d/%d bounded=%d/%d harnesses=%d solver=%.1fs wall=%.0fs" %
           (prop, tier, proof_dis, proof_obl, b_dis, b_obl, len(per), solver_s, time.time() - t0))
